@@ -127,7 +127,8 @@ class AlgebraProfile(StoreProfile):
             if rng.random() < p_star:
                 host[j] = "*"
         leaf = m.is_leaf_type(tn)
-        st = {"op": "rel", "rule": rule, "party": party}
+        # one time in four the instance that answers the relation has served abandoned searches just before
+        st = {"op": "rel", "rule": rule, "party": party, "pre": rng.random() < 0.25}
         if rule == "comma":
             j = rng.randrange(n)
             vals = [v for v in (vocab.values(tn, t.keys[j]) or []) if v != segs[j]]
@@ -289,6 +290,9 @@ class AlgebraProfile(StoreProfile):
         rule = step["rule"]
         s = step["s"]
         rhs = step.get("parts") or [step.get("filtered") or step.get("narrowed")]
+        if step.get("pre"):
+            run.do(X.seq(X.meth(F, "find_one", s), X.meth(F, "exists", rhs[0]), X.take(X.meth(F, "find", s), 1, keep="pre_gen")))
+            run.probes["relation_on_instance_with_abandoned_searches"] += 1
         obs = run.do(X.seq(*([X.meth(F, "find", s)] + [X.meth(F, "find", q) for q in rhs])))["~seq"]
         lhs = answer(obs[0])
         parts = [answer(o) for o in obs[1:]]
